@@ -18,7 +18,7 @@ import (
 // soy is one step).  It is a constant of the harness, fixed at more than 20x the worst ratio
 // measured over the whole corpus and the seeded workload on the pinned tree (see evidence key
 // max_steps_per_byte), not a property of soy.
-const StepsPerByte = 1000
+const StepsPerByte = 1500
 
 // SiteTable maps site ids to source positions.
 type SiteTable struct {
